@@ -292,7 +292,7 @@ func unencodable(t types.Type, depth int) string {
 
 func init() {
 	checks["C14"] = checkC14
-	explanations["C14"] = "NARROW: equality of the two parties' keys, conformance to SP 800-108 and independence of sessions are numerical and NOT decided. Decided: (a) the three suites derive keys with the same shape: sizes from EncryptAlg.KeySize() and, only if MacAlg!=0, MacAlg.KeySize(); nistkdf.KDF(PRFHash, secret, context, (sek+svk)*8); SEK=out[:sek], SVK=out[sek:]; (b) persistence completeness: each session type's UnmarshalCBOR assigns every field of the session and of the embedded SessionCrypter from the decoded persisted value, and MarshalCBOR reads every field except the re-derived Cipher; (c) the KDF resets its PRF before every block (a MAC is never continued across blocks); (d) degenerate Diffie-Hellman parameters are rejected: the DH derivation returns a key only after both range comparisons of the peer value and both comparisons of the shared secret passed; the ECDH path requires NewPublicKey and ECDH err==nil, OAEP requires DecryptOAEP err==nil; (e) fresh secrets derive from the rand argument."
+	explanations["C14"] = "NARROW: equality of the two parties' keys, conformance to SP 800-108 and independence of sessions are numerical and NOT decided. Decided: (a) the three suites derive keys with the same shape: sizes from EncryptAlg.KeySize() and, only if MacAlg!=0, MacAlg.KeySize(); nistkdf.KDF(PRFHash, secret, context, (sek+svk)*8); SEK=out[:sek], SVK=out[sek:]; (b) persistence completeness: each session type's UnmarshalCBOR assigns every field of the session and of the embedded SessionCrypter from the decoded persisted value, and MarshalCBOR reads every field except the re-derived Cipher; (c) the KDF resets its PRF before every block (a MAC is never continued across blocks); (d) degenerate Diffie-Hellman parameters are rejected: the DH derivation returns a key only after both range comparisons of the peer value and both comparisons of the shared secret passed; the ECDH path requires NewPublicKey and ECDH err==nil, OAEP requires DecryptOAEP err==nil; (e) fresh secrets derive from the rand argument; (f) every registered encrypt-then-MAC cipher suite derives keys with the PRF hash of its MAC algorithm (hash read from the MAC registration)."
 }
 
 // c14PrfMatchesMac: for encrypt-then-MAC suites the KDF's PRF hash is the hash
@@ -620,7 +620,7 @@ func anyCallerCalls(p *Prog, fn *ssa.Function, name string) bool {
 
 func init() {
 	checks["C15"] = checkC15
-	explanations["C15"] = "NARROW: losslessness and ordering over all sizes, remainders, write splits and schedules are arithmetic/concurrency properties and NOT decided (including the documented window where the next key does not fit the remaining budget). Decided, budget accounting only: (a) in the device's batching loop the budget handed to the next ReadChunk is the previous budget minus Size() of the chunk just appended; (b) the owner returns produced service info only after ArraySizeCBOR(info) > mtu was false; (c) ReadChunk reads value bytes only after size - overhead <= 0 was false, and the overhead is computed from the raw CBOR-encoded key; (d) ForceNewMessage hands the reader a pipe whose writer is closed at once (yield => new batch); (e) size computations compare against CBOR head boundaries in canonical form."
+	explanations["C15"] = "NARROW: losslessness and ordering over all sizes, remainders, write splits and schedules are arithmetic/concurrency properties and NOT decided . Decided, budget accounting only: (a) in the device's batching loop the budget handed to the next ReadChunk is the previous budget minus Size() of the chunk just appended; (b) the owner returns produced service info only after ArraySizeCBOR(info) > mtu was false; (c) ReadChunk reads value bytes only after size - overhead <= 0 was false, and the overhead is computed from the raw CBOR-encoded key; (d) ForceNewMessage hands the reader a pipe whose writer is closed at once (yield => new batch); (e) size computations compare against CBOR head boundaries in canonical form; (f) no reader limit in ReadChunk depends on the remaining size (the key of the next service info is read in full whatever budget is left; a key cut short by the budget lost or failed the service info)."
 }
 
 func checkC15(c *Ctx, p *Prog, r *Result) {
@@ -817,7 +817,7 @@ func checkC15(c *Ctx, p *Prog, r *Result) {
 
 func init() {
 	checks["C16"] = checkC16
-	explanations["C16"] = "NARROW: exactly-once, in-order delivery of module streams across messages, fragmentation and goroutine schedules are properties of executions and NOT decided. Decided, dispatch gates only: (a) DeviceModule.Receive is invoked only on paths where the module was found active; (b) when an activation request names an unknown module, every non-error path of the activation handler encodes a reply (unknown modules answer rather than stay silent), and the reply value is forced to false for unknown modules other than devmod; (c) both module dispatchers treat an unread message body as an error after Receive / HandleInfo; (d) the device sends Done (type 70) only after the owner's last response carried IsDone; (e) on the owner IsDone derives from ModuleStateMachine.NextModule returning false, consulted only after ProduceInfo reported completion; (f) the devmod writer is given the very MTU value negotiated in DeviceServiceInfoReady that the exchange loop uses."
+	explanations["C16"] = "NARROW: exactly-once, in-order delivery of module streams across messages, fragmentation and goroutine schedules are properties of executions and NOT decided. Decided, dispatch gates only: (a) DeviceModule.Receive and DeviceModule.Yield are invoked by the dispatcher only on paths where the module was found active; (b) when an activation request names an unknown module, every non-error path of the activation handler encodes a reply (unknown modules answer rather than stay silent), and the reply value is forced to false for unknown modules other than devmod; (c) both module dispatchers treat an unread message body as an error after Receive / HandleInfo; (d) the device sends Done (type 70) only after the owner's last response carried IsDone; (e) on the owner IsDone derives from ModuleStateMachine.NextModule returning false, consulted only after ProduceInfo reported completion; (f) the devmod writer is given the very MTU value negotiated in DeviceServiceInfoReady that the exchange loop uses."
 }
 
 func checkC16(c *Ctx, p *Prog, r *Result) {
